@@ -147,9 +147,11 @@ def estimators(df, covs, g, stab, treat, which, grepr=bool, extra=()):
     return e
 
 
-def model_k(chk, drv, e, df, covs, g, stab, which, case):
+def model_k(chk, drv, e, df, covs, g, stab, which, case, samp_model=None):
+    """`samp_model`: the denominator model handed to sampling_model() by the caller (default: the saturated one)"""
     if drv is None:
         return
+    samp_model = samp_model or gen.sat_cov(covs)
     if which == 'IPSW':
         smp = e.sample
         kw = enc(smp, covs)
@@ -159,7 +161,7 @@ def model_k(chk, drv, e, df, covs, g, stab, which, case):
         ok = rep['status'] == 'ok' and np.allclose([unfx(t) for t in rep['w'].split(',')], smp['__ipsw__'], rtol=1e-12)
         # the per-row lines regenerated from IPSW.sampling_model (Gen/Sites.lean; no truncation requested here) on the
         # harness's own reference fits of the two sampling models (all rows, unweighted) vs the stored columns
-        dref = smf.glm('S ~ ' + gen.sat_cov(covs), e.df, family=sm.families.family.Binomial()).fit().predict(smp)
+        dref = smf.glm('S ~ ' + samp_model, e.df, family=sm.families.family.Binomial()).fit().predict(smp)
         nref = smf.glm('S ~ 1', e.df, family=sm.families.family.Binomial()).fit().predict(smp)
         chk.h_checked += 1
         rs, _ = drv.ask('site', kind='ipsw', gen=int(g), stab=int(stab), spec='other', falsy=1, d=enc_list(dref, fx),
@@ -189,7 +191,7 @@ def model_k(chk, drv, e, df, covs, g, stab, which, case):
                          q0=enc_list(e._YA0, fx), **enc(e.df, covs))
         ok = rep['status'] == 'ok'
         # the per-row lines regenerated from AIPSW.sampling_model (Gen/Sites.lean) on the harness's own reference fits
-        dref = smf.glm('S ~ ' + gen.sat_cov(covs), e.df, family=sm.families.family.Binomial()).fit().predict(e.df)
+        dref = smf.glm('S ~ ' + samp_model, e.df, family=sm.families.family.Binomial()).fit().predict(e.df)
         nref = smf.glm('S ~ 1', e.df, family=sm.families.family.Binomial()).fit().predict(e.df)
         chk.h_checked += 1
         rs, _ = drv.ask('site', kind='aipsw', gen=int(g), stab=int(stab), sample=enc_list(e.df['S'].astype(int).tolist(), str),
